@@ -687,4 +687,4 @@ def strategy(tier):
   common = {'avals': st.lists(st.integers(-3, 9), min_size=2, max_size=3), 'a2': st.integers(-3, 9)}
   py = st.fixed_dictionaries(dict(common, kind=st.just('py'), formulas=st.lists(py_formulas(), min_size=1, max_size=4)))
   tx = st.fixed_dictionaries(dict(common, kind=st.just('text'), formulas=st.lists(text_formulas(), min_size=1, max_size=4)))
-  return st.one_of(py, py, py, tx)
+  return st.integers(0, 9).flatmap(lambda k: tx if k < 2 else py)
